@@ -282,7 +282,7 @@ func init() {
 	Register(&Check{ID: "C11", Level: "fault_enumeration",
 		Rule: "one case = one generated workflow and one of three ways, tape-chosen, of splitting its execution over several incarnations on one persistent fs: (a) RunTo(tape-chosen prefix targets) then Run; (b) for the sampled schedule EVERY distinct crash state: kill there, cleanup, re-run (states in which the re-run does not complete are C03's business and skipped here); (c) complete run, delete a tape-chosen set of outputs with their audit files, re-run. Oracle after each history: every output's audit file equals the reference lineage (= the uninterrupted result: process, command, parameters, tags, output paths of every ancestor, recursively), and every nested ancestor record whose audit file was on disk before the resuming incarnation is identical (ids, time stamps and all) to that file - which exercises scipipe's own write -> read -> embed -> write path. distinct = event-log hash of the history; non-trivial = >=2 tasks, >=1 non-default choice",
 		Run: func(c *Case) Verdict {
-			w := Generate(c.Tape, tierProfile(profC11, c.Tier))
+			w := Generate(c.Tape, crashTierProfile(profC11, c.Tier))
 			ex := Eval(w)
 			mode := c.Tape.Choose(simrt.StGen, 3, 0)
 			check := func(final *simrt.Inode, before map[string]map[string]any, incs ...*Inc) Verdict {
